@@ -1,0 +1,29 @@
+//go:build verif
+
+// Package verifhook provides hook points for the verification harness. With the
+// `verif` build tag a registered handler is called at each hook point; it may block
+// the calling goroutine to impose a schedule.
+package verifhook
+
+import "sync/atomic"
+
+// Handler receives the hook label and the payload given at the call site.
+type Handler func(label string, payload []any)
+
+var handler atomic.Pointer[Handler]
+
+// Set registers the handler called at every hook point (nil clears it).
+func Set(h Handler) {
+	if h == nil {
+		handler.Store(nil)
+		return
+	}
+	handler.Store(&h)
+}
+
+// At marks a hook point.
+func At(label string, payload ...any) {
+	if h := handler.Load(); h != nil {
+		(*h)(label, payload)
+	}
+}
